@@ -488,6 +488,49 @@ theorem tag_irrelevant (s t : Seg) (h : s.bytes = t.bytes) :
       u.partialCmp s = u.partialCmp t) := by
   simp [Seg.hashInput, Seg.beq, Seg.partialCmp, h]
 
+/-- The `LongChain` operations never look at the variants: changing borrowed to owned or back
+    (any re-tagging `f`) in the chain and in the argument changes nothing but the variants in the
+    result, panics included. -/
+theorem step_retag (f : Tag → Tag) (c : Chain) (op : Op) :
+    (retagChain f c).step (retagOp f op) = retagRes f (c.step op) := by
+  cases op with
+  | push s =>
+    by_cases he : s.bytes = [] <;>
+      simp [Chain.step, retagOp, Chain.push, he, Except.map, retagRes, retagChain, retagOut]
+  | insert i s =>
+    by_cases he : s.bytes = []
+    · simp [Chain.step, retagOp, Chain.insert, he, Except.map, retagRes, retagChain, retagOut]
+    · by_cases hgt : i > c.segs.length <;>
+        simp [Chain.step, retagOp, Chain.insert, he, hgt, Except.map, retagRes, retagChain, retagOut]
+  | pop =>
+    cases hg : c.segs.getLast? <;>
+      simp [Chain.step, retagOp, Chain.pop, hg, Except.map, retagRes, retagChain, retagOut]
+  | remove i =>
+    cases hg : c.segs[i]? <;>
+      simp [Chain.step, retagOp, Chain.remove, hg, Except.map, retagRes, retagChain, retagOut,
+        List.eraseIdx_eq_take_drop_succ]
+  | splitTo n =>
+    simp only [Chain.step, retagOp, Chain.splitTo, splitOff_retag]
+    cases c.splitOff n with
+    | error e => simp [Except.map, retagRes]
+    | ok v => obtain ⟨a, b⟩ := v; simp [Except.map, retagRes, retagOut]
+  | splitOff n =>
+    simp only [Chain.step, retagOp, splitOff_retag]
+    cases c.splitOff n with
+    | error e => simp [Except.map, retagRes]
+    | ok v => obtain ⟨a, b⟩ := v; simp [Except.map, retagRes, retagOut]
+  | truncate n =>
+    simp only [Chain.step, retagOp, truncate_retag]
+    cases c.truncate n with
+    | error e => simp [Except.map, retagRes]
+    | ok v => obtain ⟨a, u⟩ := v; simp [Except.map, retagRes, retagOut]
+  | advance n =>
+    simp only [Chain.step, retagOp, advance_retag]
+    cases c.advance n with
+    | error e => simp [Except.map, retagRes]
+    | ok v => obtain ⟨a, u⟩ := v; simp [Except.map, retagRes, retagOut]
+  | clear => simp [Chain.step, retagOp, Chain.clear, Except.map, retagRes, retagChain, retagOut]
+
 /-- `==` is equality of the bytes. -/
 theorem seg_beq_iff (s t : Seg) : s.beq t = true ↔ s.bytes = t.bytes := by
   simp [Seg.beq]
@@ -536,6 +579,7 @@ example : Reachable ⟨[⟨.static, [7]⟩], 1⟩ :=
   .step (c := Chain.new) (op := .push ⟨.static, [7]⟩) (o := .unit) .new (by decide)
 example : (⟨.temporary, [1, 2]⟩ : Seg).truncate 3 = .error ⟨⟨.temporary, [1, 2]⟩⟩ ∧
     (⟨.static, [1, 2]⟩ : Seg).truncate 3 = .ok (⟨.static, [1, 2]⟩, ()) := by decide
+example : retagChain (fun _ => .static) ex = ⟨[⟨.static, [1, 2]⟩, ⟨.static, [3, 4, 5]⟩], 5⟩ := by decide
 example : (⟨.temporary, [1, 2]⟩ : Seg).partialCmp ⟨.static, [1, 2, 0]⟩ = some .lt := by decide
 /-- A value that violates the invariant (what the unrepaired `truncate` produced): the theorems'
     hypothesis `Inv` is not trivially true. -/
